@@ -124,6 +124,7 @@ type c09Lane struct {
 	dead, deadPP     atomic.Bool // refused-dial case: the first instance is dead and has this pxyproto option
 	lookups          atomic.Int32
 	deadAddr         string // an address nobody listens on
+	releaseDead      func()
 	servers          []*Server
 	addr             map[string]string
 }
@@ -152,13 +153,13 @@ func c09NewLane(cert tls.Certificate) (*c09Lane, error) {
 		l.close()
 		return nil, err
 	}
-	dl, deadAddr, err := verifx.ListenFree()
+	// an address where a dial is refused for as long as the lane lives (bound, not listening)
+	deadAddr, release, err := verifx.ReserveDeadPort()
 	if err != nil {
 		l.close()
 		return nil, err
 	}
-	dl.Close() // from now on a dial to it is refused
-	l.deadAddr = deadAddr
+	l.deadAddr, l.releaseDead = deadAddr, release
 	for path, h := range map[string]Handler{
 		"tcp": &Proxy{Lookup: l.target},
 		"sni": &SNIProxy{Lookup: l.target},
@@ -194,6 +195,9 @@ func (l *c09Lane) close() {
 	}
 	if l.slowL != nil {
 		l.slowL.Close()
+	}
+	if l.releaseDead != nil {
+		l.releaseDead()
 	}
 }
 
